@@ -586,6 +586,45 @@ func vxstub_os_Remove(name string) error {
 	return nil
 }
 
+// unlink(2) and rmdir(2), the two halves of remove(3): each refuses the other's kind of object
+func (fs *vxFS) removeKind(op string, name string, wantDir bool) error {
+	i := fs.begin(vxFSCall{op: op, path: name, mut: true})
+	if e, f := fs.fault(i); f {
+		fs.fail(i, vxPathErr(op, name, e))
+		return e
+	}
+	r := fs.resolve(name, false)
+	if r.errno != 0 {
+		fs.fail(i, vxPathErr(op, name, r.errno))
+		return r.errno
+	}
+	if r.ent == nil {
+		fs.fail(i, vxPathErr(op, name, vxEINVAL))
+		return vxEINVAL
+	}
+	if (r.in.kind == vxKDir) != wantDir {
+		e := vxEISDIR
+		if wantDir {
+			e = vxENOTDIR
+		}
+		fs.fail(i, vxPathErr(op, name, e))
+		return e
+	}
+	if wantDir {
+		for _, d := range r.in.ents {
+			if d.exists {
+				fs.fail(i, vxPathErr(op, name, vxENOTEMPTY))
+				return vxENOTEMPTY
+			}
+		}
+	}
+	fs.unlink(r.parent, r.ent)
+	return nil
+}
+
+func vxstub_syscall_Unlink(name string) error { return vxfs.removeKind("unlink", name, false) }
+func vxstub_syscall_Rmdir(name string) error  { return vxfs.removeKind("rmdir", name, true) }
+
 func vxstub_os_Chmod(name string, mode os.FileMode) error {
 	fs := vxfs
 	i := fs.begin(vxFSCall{op: "chmod", path: name, mode: uint32(mode), mut: true})
@@ -785,6 +824,54 @@ func vxstub_os_File_Close(f *os.File) error {
 	if e, ff := fs.fault(i); ff {
 		return fs.fail(i, vxPathErr("close", h.path, e))
 	}
+	return nil
+}
+
+// pathOf: where the object is in the tree now (a descriptor follows its file through renames)
+func (fs *vxFS) pathOf(dir *vxInode, prefix string, in *vxInode, depth int) string {
+	for _, d := range dir.ents {
+		if !d.exists {
+			continue
+		}
+		if d.in == in {
+			return prefix + "/" + d.name
+		}
+		if d.in.kind == vxKDir && depth > 0 {
+			if p := fs.pathOf(d.in, prefix+"/"+d.name, in, depth-1); p != "" {
+				return p
+			}
+		}
+	}
+	return ""
+}
+
+// ftruncate(2): needs a descriptor open for writing (EINVAL otherwise); logged as a truncate of the file's current path
+func vxstub_os_File_Truncate(f *os.File, size int64) error {
+	fs := vxfs
+	h := fs.handle(f)
+	if h != nil {
+		if p := fs.pathOf(fs.root, "", h.in, 6); p != "" {
+			h.path = p
+		}
+	}
+	if h == nil {
+		fs.begin(vxFSCall{op: "truncate", path: "?", a: size, mut: true, err: vxErrInvalid})
+		return vxErrInvalid
+	}
+	i := fs.begin(vxFSCall{op: "truncate", path: h.path, a: size, mut: true})
+	if h.closed {
+		return fs.fail(i, &os.PathError{Op: "truncate", Path: h.path, Err: vxErrClosed})
+	}
+	if e, ff := fs.fault(i); ff {
+		return fs.fail(i, vxPathErr("truncate", h.path, e))
+	}
+	if h.flags&(os.O_WRONLY|os.O_RDWR) == 0 || h.in.kind == vxKDir || size < 0 {
+		return fs.fail(i, vxPathErr("truncate", h.path, vxEINVAL))
+	}
+	if int64(len(h.in.data)) > size {
+		h.in.data = h.in.data[:int(size)]
+	}
+	h.in.size = size
 	return nil
 }
 
